@@ -701,7 +701,11 @@ def e_query_csv(ctx, case, spec):
         opath = os.path.join(d, 'out.txt')
         w = []
         try:
-            ctx.rbql_csv.query_csv(case['query'], ipath, delim, policy, opath, odelim, opolicy, 'utf-8', w, case['header'] is not None)
+            if spec.get('header_via') == 'modifier' and case['header'] is not None:
+                # the header is announced by the query modifier instead of the API flag: same table expected
+                ctx.rbql_csv.query_csv(case['query'] + ' WITH (header)', ipath, delim, policy, opath, odelim, opolicy, 'utf-8', w, False)
+            else:
+                ctx.rbql_csv.query_csv(case['query'], ipath, delim, policy, opath, odelim, opolicy, 'utf-8', w, case['header'] is not None)
         except Exception as e:
             return err(e)
         with open(opath, 'rb') as f:
@@ -830,11 +834,12 @@ def e_cli(ctx, case, spec):
         argv = [VENV_PY, '-m', 'rbql', '--delim', spec.get('delim_arg', delim)]
         if spec.get('explicit_policy', True):
             argv += ['--policy', policy]
-        if case['header'] is not None:
+        via_modifier = spec.get('header_via') == 'modifier' and case['header'] is not None
+        if case['header'] is not None and not via_modifier:
             argv.append('--with-headers')
         if fmt is not None:
             argv += ['--out-format', fmt]
-        argv += ['--query', case['query']]
+        argv += ['--query', case['query'] + (' WITH (header)' if via_modifier else '')]
         mode = spec['mode']
         stdin_bytes = None
         if mode[0] == 'f':
@@ -941,7 +946,7 @@ def judge(case, spec, ref, got):
             what.append('warning reported by query_csv for the same input is missing on stderr: %r' % missing[:2])
     if not what:
         return None
-    key = '%s:%s:%s' % (spec['entry'], case['shape'], 'hdr' if case['header'] is not None else 'nohdr')
+    key = '%s:%s:%s%s' % (spec['entry'], case['shape'], 'hdr' if case['header'] is not None else 'nohdr', ':with-modifier' if spec.get('header_via') == 'modifier' else '')
     sp = {k: v for k, v in spec.items() if k != 'lib_warnings'}
     return {'replay': 'c13', 'key': key, 'what': what, 'query': case['query'], 'case': case, 'entry': sp,
             'expected': dict(brief(ref), source=('a deliberately failing query' if case['shape'].startswith('fail-') else 'rbql.query_table on the same query and data')), 'observed': dict(brief(got), argv=got.get('argv'))}
@@ -1201,6 +1206,11 @@ def entry_points_agree(prop, tier, seed):
                 for od in outs:
                     specs.append({'entry': 'query_csv', 'delim': d[0], 'policy': d[1], 'odelim': od[0], 'opolicy': od[1],
                                   'eol': '\r\n' if (ci + k) % 3 == 0 else '\n', 'final_eol': (ci + k) % 4 != 0})
+            if case['header'] is not None and case.get('B') is None and ' with ' not in case['query'].lower() and ' join ' not in case['query'].lower():
+                d = ins[0]
+                specs.append({'entry': 'query_csv', 'delim': d[0], 'policy': d[1], 'odelim': d[0], 'opolicy': d[1], 'eol': '\n', 'final_eol': True, 'header_via': 'modifier'})
+                if ci % 4 == 0:
+                    specs.append(dict(cli_spec(random.Random(seed * 7919 + ci), d, 'ff', None), header_via='modifier'))
             for od in ((',', 'quoted_rfc'), ('\t', 'simple'), (',', 'quoted')):
                 specs.append({'entry': 'sqlite_to_csv', 'odelim': od[0], 'opolicy': od[1]})
             for spec in specs:
